@@ -264,7 +264,7 @@ func (r *ReconcileSuggestion) ReconcileSuggestion(instance *suggestionsv1beta1.S
 		return err
 	}
 
-	if err := r.List(context.TODO(), trials, client.MatchingLabels(util.TrialLabels(experiment))); err != nil {
+	if err := r.List(context.TODO(), trials, client.InNamespace(instance.Namespace), client.MatchingLabels(util.TrialLabels(experiment))); err != nil {
 		return err
 	}
 	// TODO (andreyvelich): Do we want to run ValidateAlgorithmSettings when Experiment is restarting?
